@@ -252,7 +252,17 @@ def plausible_op(uni, w, S, rng, catalogue):
   if r < 0.89:
     return mkop("SetBody", rng.choice([0] + [e for e in E if kinds[e - 1] == "body"] + ([rng.choice(E)] if not smart else [])),
                 d=rng.randint(1, uni.nd))
-  # value operations
+  # value operations; half of them target a property that already has a stored value (a rejected call must not disturb it)
+  have = [(e, st[0]) for e in E for st in S["styles"][e - 1]]
+  if have and rng.random() < 0.5:
+    e, prop = rng.choice(have)
+    toks = [t + 1 for t, c in enumerate(catalogue) if c[0] == prop]
+    return mkop("SetStyle", e, prop=prop, tok=rng.choice(toks))
+  haveinit = [(d + 1, st[0]) for d in range(uni.nd) for st in S["initials"][d]]
+  if haveinit and rng.random() < 0.3:
+    d, prop = rng.choice(haveinit)
+    toks = [t + 1 for t, c in enumerate(catalogue) if c[0] == prop]
+    return mkop("PutInitial", d=d, prop=prop, tok=rng.choice(toks))
   tok = rng.randint(1, len(catalogue))
   prop = catalogue[tok - 1][0]
   if rng.random() < 0.08:
